@@ -190,6 +190,24 @@ func evalAlphabetStrings(col *collector, ctx *evalCtx, maxLen int) partResult {
 	return r
 }
 
+// deadline is the internal time limit of a run; work units that would start after it are skipped
+// and the evidence says exhaustive:false with what was completed (executions < inputs).
+var (
+	deadline      time.Time
+	deadlineHit   bool
+	deadlineMutex sync.Mutex
+)
+
+func pastDeadline() bool {
+	if deadline.IsZero() || time.Now().Before(deadline) {
+		return false
+	}
+	deadlineMutex.Lock()
+	deadlineHit = true
+	deadlineMutex.Unlock()
+	return true
+}
+
 type run struct {
 	tier     string
 	seed     uint64
@@ -331,6 +349,10 @@ func Main(args []string) {
 	}
 	rep := evidence.NewReporter("C12")
 	start := time.Now()
+	deadline = start.Add(15 * time.Minute)
+	if tier == "thorough" {
+		deadline = start.Add(60 * time.Minute)
+	}
 	want := func(p string) bool { return *only == "" || strings.Contains(","+*only+",", ","+p+",") }
 
 	if want("alphabet") {
@@ -361,7 +383,8 @@ func Main(args []string) {
 		"traces_validated_against_impl": r.compared,
 		"evaluations":                   r.calls,
 		"distinct_nontrivial":           r.inputs,
-		"exhaustive":                    *only == "" && !r.harness,
+		"exhaustive":                    *only == "" && !r.harness && !deadlineHit,
+		"internal_deadline_hit":         deadlineHit,
 		"rule": "states = distinct inputs: strings (alphabet, tokens), structured queries (roundtrip, malformed), (query, population stage) pairs (eval); " +
 			"transitions = executions of query.Parse / RepoCacheBug.Query on them; traces_validated_against_impl = executions whose result was compared with the " +
 			"reference (denotation of the clauses; reference evaluator over bugs read back from git); the alphabet strings are only required not to crash",
